@@ -24,7 +24,7 @@ for pid in ids:
 na = [{'property_id': pid, 'reason': NOT_APPLICABLE.get(pid, 'check not built yet (work in progress)')} for pid in ids if pid not in CHECKS]
 m = {
     'version': 1,
-    'setup_cmd': 'cd lean && lake build PtnModel ptndriver',
+    'setup_cmd': './setup.sh',
     'hooks': {
         'guard': 'PYTENET_VERIF',
         'enable': 'no source hooks are needed: the harness imports /repo\'s working tree (PYTHONPATH) and observes by wrapping module-level names in its own process',
